@@ -336,9 +336,16 @@ func closureArg(u *core.Unit, cl *core.Call, i int) *core.Unit {
 	}
 	if id, ok := a.(*ast.Ident); ok {
 		for x := u; x != nil; x = x.Parent {
-			if k := x.Kid(id.Name); k != nil {
+			if k := x.Kid(core.CanonIdent(u.Info(), id)); k != nil {
 				return k
 			}
+		}
+	}
+	// a function or method value: the literal that used to stand here may have become a named function, which then
+	// carries the literal's key (core.recoverClosures)
+	if f, _ := core.ObjOf(u.Info(), a).(*types.Func); f != nil {
+		if k := u.Prog.UnitOf(f); k != nil && strings.Contains(k.Key, "$") {
+			return k
 		}
 	}
 	return nil
